@@ -31,7 +31,7 @@ def verify_functions(rep: core.Report, module_names, quals, classes, prop=None, 
     src = eng.Source(core.REPO)
     all_obs = []
     for q in quals:
-        c = eng.REGISTRY[q]
+        c = eng.REGISTRY[q] if q in eng.REGISTRY else eng.LEMMAS[q]
         ex = eng.Executor(src, Lib(), classes)
         t0 = time.time()
         try:
